@@ -260,6 +260,9 @@ func (st *State) vxCall(name string, args []Value, fn *ssa.Function) Value {
 			}
 			as = append(as, a)
 		}
+		if len(as) > 1 {
+			nm = fmt.Sprintf("%s_%d", nm, len(as))
+		}
 		return ts.UF("uf_"+nm, st.floatSort(), as...)
 	case "Concretize":
 		return st.concretize(args[0].(*Term))
@@ -285,7 +288,9 @@ func (st *State) vxCall(name string, args []Value, fn *ssa.Function) Value {
 	case "Implies":
 		return ts.Or(ts.Not(args[0].(*Term)), args[1].(*Term))
 	case "Close", "Leq":
-		return st.closeTo(name == "Leq", args[0].(*Term), args[1].(*Term), args[2].(*Term), args[3].(*Term))
+		return st.closeTo(name == "Leq", args[0].(*Term), args[1].(*Term), args[2].(*Term), args[3].(*Term), false)
+	case "Near":
+		return st.closeTo(false, args[0].(*Term), args[1].(*Term), args[2].(*Term), args[3].(*Term), true)
 	case "SameBits":
 		return st.valueEq(args[0], args[1])
 	case "Epoch":
@@ -1045,7 +1050,7 @@ func (st *State) randCall(fn *ssa.Function, name string, args []Value) (Value, b
 var _ = types.Identical
 
 // closeTo is vx.Close / vx.Leq: exact in the R and ORD readings, the tolerance formula otherwise.
-func (st *State) closeTo(leq bool, a, b, rel, abs *Term) *Term {
+func (st *State) closeTo(leq bool, a, b, rel, abs *Term, alwaysTol bool) *Term {
 	ts := st.ts
 	exact := st.fcmp(token.EQL, a, b)
 	if leq {
@@ -1062,10 +1067,10 @@ func (st *State) closeTo(leq bool, a, b, rel, abs *Term) *Term {
 		d := math.Abs(a.f - b.f)
 		return ts.Bool(d <= abs.f || d <= rel.f*math.Max(math.Abs(a.f), math.Abs(b.f)))
 	}
-	if st.h.mode == ModeR || st.h.mode == ModeORD {
+	if (st.h.mode == ModeR || st.h.mode == ModeORD) && !alwaysTol {
 		return exact
 	}
-	if st.h.mode == ModeRR {
+	if st.h.mode == ModeRR || st.realMode() {
 		ra, rb := st.toReal(a), st.toReal(b)
 		d := ts.rbin(ORSub, ra, rb)
 		ad := ts.Ite(ts.rcmp(ORLt, d, ts.RealF(0)), ts.RNeg(d), d)
